@@ -251,6 +251,44 @@ theorem overlap_back (mode : Mode) : ∀ (sIn sOut offs idx : List Nat),
   | _ :: _, [], _, _, h, _, _ => by simp [AdmissibleND] at h
   | _ :: _, _ :: _, [], _, h, _, _ => by simp [AdmissibleND] at h
 
+/-! ### acceptance of the adjoint call -/
+
+omit [CommRing K] [DecidableEq K] in
+theorem offsetsBad_symm : ∀ (sIn sOut offs : List Nat),
+    offsetsBad sOut sIn offs = offsetsBad sIn sOut offs
+  | n :: sIn, m :: sOut, off :: offs => by
+    simp only [offsetsBad, offsetsBad_symm sIn sOut offs]
+    congr 1
+    simp only [decide_eq_decide]
+    constructor <;> rintro ⟨h1, h2⟩ <;>
+      exact ⟨fun h => h1 h.symm, by rw [Nat.min_comm, Nat.max_comm]; exact h2⟩
+  | [], [], _ => by simp [offsetsBad]
+  | [], _ :: _, _ => by simp [offsetsBad]
+  | _ :: _, [], _ => by simp [offsetsBad]
+  | _ :: _, _ :: _, [] => by simp [offsetsBad]
+
+/-- one axis: an admissible configuration is accepted in the adjoint direction (`pad_const = 0`) -/
+theorem check_adj_of_adm (mode : Mode) (n m off : Nat) (h : Admissible mode n m off) :
+    check mode .adjoint m n off (0 : K) = none := by
+  revert h
+  cases mode <;>
+    simp only [check, paddingGuards, OdlModel.Gen.PadSlices.guards, Admissible, PadOK,
+      reduceCtorEq, false_and, true_and, and_false, ne_eq, not_true_eq_false, ↓reduceIte,
+      gt_iff_lt, ge_iff_le] <;>
+    intro h <;> split_ifs <;> first | rfl | omega
+
+theorem checkAxes_adj_of_adm (mode : Mode) : ∀ (sIn sOut offs : List Nat),
+    AdmissibleND mode sIn sOut offs → checkAxes mode .adjoint (0 : K) sOut sIn offs = none
+  | [], [], [], _ => by simp [checkAxes]
+  | n :: sIn, m :: sOut, off :: offs, h => by
+    simp only [checkAxes]
+    rw [check_adj_of_adm mode n m off h.1]
+    exact checkAxes_adj_of_adm mode sIn sOut offs h.2
+  | [], [], _ :: _, h => by simp [AdmissibleND] at h
+  | [], _ :: _, _, h => by simp [AdmissibleND] at h
+  | _ :: _, [], _, h => by simp [AdmissibleND] at h
+  | _ :: _, _ :: _, [], h => by simp [AdmissibleND] at h
+
 end
 
 /-! ### `np.around` / `np.isclose` on rationals -/
